@@ -240,6 +240,29 @@ func queries(t *simkit.Tape, o *simkit.Outcome, g guard) {
 	for i := 0; i < n; i++ {
 		str, _ := model.GenExprAny(t, env)
 		mutated := false
+		if t.Bool(1, 25) {
+			// long / deeply nested but valid expressions (parser recursion, quadratic paths)
+			k := 20 + t.Draw(280)
+			switch t.Draw(8) {
+			case 0:
+				str = strings.Repeat("(", k) + str + strings.Repeat(")", k)
+			case 1:
+				str = strings.Repeat("*|", k) + "*"
+			case 2:
+				str = strings.Repeat("*/", k) + "*"
+			case 3:
+				str = "*" + strings.Repeat("[1]", k)
+			case 4:
+				str = strings.Repeat("1+", k) + "1"
+			case 5:
+				str = strings.Repeat("-", k) + "1"
+			case 6:
+				str = strings.Repeat("not(", k) + "1" + strings.Repeat(")", k)
+			case 7:
+				str = strings.Repeat("*[", k) + "1" + strings.Repeat("]", k)
+			}
+			o.Fault("long-or-deep-expression")
+		}
 		if t.Bool(1, 4) {
 			str = mutateExpr(t, str)
 			mutated = true
